@@ -3,6 +3,7 @@
 mod arith;
 mod brain;
 mod comp;
+mod conv;
 mod formula;
 mod peak;
 mod poisson;
@@ -21,6 +22,7 @@ fn main() {
         "comp" => comp::run(&rest),
         "arith" => arith::run(&rest),
         "brain" => brain::run(&rest),
+        "conv" => conv::run(&rest),
         "formula" => formula::run(&rest),
         "poisson" => poisson::run(&rest),
         _ => {
